@@ -187,8 +187,8 @@ func TestCheck(t *testing.T) {
 		i     int
 	}
 	var jobs []job
-	nDirect := r.Pick(400, 8000)
-	nFront := r.Pick(150, 3000)
+	nDirect := r.Pick(400, 6000)
+	nFront := r.Pick(150, 2400)
 	for c := range cfgs {
 		for i := 0; i < nDirect; i++ {
 			jobs = append(jobs, job{"direct", c, i})
